@@ -8,6 +8,7 @@
 //      keys  k0/k1/...  each a comma separated byte list, '-' = empty key
 //      ops   op;op;...   I:k:v Insert  G:k:v x=Get(k),report,x=v  O:k:v same through operator[](Key&&)
 //            J:k get-or-create without assignment (HList: Insert(ptr,len))   R:k Remove  X:i RemoveIndex
+//            Y:k RemoveIndex(GetKeyIndex(k))
 //            N:a:b Rename  Z:n Resize  E:n Expect  C Compress  L Clear  T Reset  V:n Reserve  S:a Sort
 //            P copy round trip  M move round trip  U:mode:ins:rm  merge (ins k.v.k.v / '_', rm k.k / '_')
 // observation: groups joined by '|', numbers by ',', empty group '-':
@@ -242,6 +243,14 @@ struct Runner {
                 const bool was_clean = clean;
                 h.RemoveIndex((SizeT)num(1));
                 clean = was_clean ? !(num(1) < act0) : false;
+                break;
+            }
+            case 'Y': {
+                SizeT idx = 0;
+                if (h.GetKeyIndex(idx, kt.ptr(num(1)), kt.len(num(1)))) {
+                    h.RemoveIndex(idx);
+                }
+                if (h.ActualSize() != act0) clean = false;
                 break;
             }
             case 'N': {
